@@ -24,6 +24,29 @@ type impSpec struct {
 	kind    string  // "missing" | "unparsable"
 	dirImp  int     // -1 none; file index whose directory is imported (as a directory) by file 0
 	dotRoot bool    // the root file is named through a non-clean absolute path (/x/./main.yaml)
+	style   int     // naming of files and directories: 0 plain, 1 names beginning with "http", 2 names with spaces and symbols
+}
+
+var importDirStyles = [][]string{
+	importDirs,
+	{".", "httpd", "httpd/b", "http-c", "httpd", "http-c/d"},
+	{".", "a dir", "a dir/b#1", "c@x", "a dir", "c@x/D"},
+}
+
+func (s impSpec) dirOf(i int) string { return importDirStyles[s.style][i] }
+
+func (s impSpec) baseOf(i int) string {
+	switch s.style {
+	case 1:
+		return fmt.Sprintf("http-f%d.yaml", i)
+	case 2:
+		return fmt.Sprintf("f %d+x.yaml", i)
+	}
+	return fmt.Sprintf("f%d.yaml", i)
+}
+
+func (s impSpec) file(root string, i int) string {
+	return filepath.Join(root, s.dirOf(i), s.baseOf(i))
 }
 
 func (s impSpec) line() string {
@@ -44,13 +67,10 @@ func (s impSpec) line() string {
 	return fmt.Sprintf("imports n=%d edges=%s broken=%s", s.n, e, b)
 }
 
-func filePath(root string, i int) string {
-	return filepath.Join(root, importDirs[i], fmt.Sprintf("f%d.yaml", i))
-}
 
 func (s impSpec) materialise(root string) {
 	for i := 0; i < s.n; i++ {
-		os.MkdirAll(filepath.Join(root, importDirs[i]), 0755)
+		os.MkdirAll(filepath.Join(root, s.dirOf(i)), 0755)
 	}
 	for i := 0; i < s.n; i++ {
 		if i == s.broken && s.kind == "missing" {
@@ -59,26 +79,26 @@ func (s impSpec) materialise(root string) {
 		var b strings.Builder
 		if i == s.broken && s.kind == "unparsable" {
 			b.WriteString("tasks: [unclosed\n  - {\n")
-			os.WriteFile(filePath(root, i), []byte(b.String()), 0644)
+			os.WriteFile(s.file(root, i), []byte(b.String()), 0644)
 			continue
 		}
 		var imps []string
 		for _, j := range s.edges[i] {
-			rel, _ := filepath.Rel(filepath.Dir(filePath(root, i)), filePath(root, j))
+			rel, _ := filepath.Rel(filepath.Dir(s.file(root, i)), s.file(root, j))
 			imps = append(imps, rel)
 		}
 		if i == 0 && s.dirImp >= 0 {
-			rel, _ := filepath.Rel(filepath.Dir(filePath(root, 0)), filepath.Dir(filePath(root, s.dirImp)))
+			rel, _ := filepath.Rel(filepath.Dir(s.file(root, 0)), filepath.Dir(s.file(root, s.dirImp)))
 			imps = append(imps, rel)
 		}
 		if len(imps) > 0 {
 			b.WriteString("import:\n")
 			for _, p := range imps {
-				fmt.Fprintf(&b, "  - %s\n", p)
+				fmt.Fprintf(&b, "  - %q\n", p)
 			}
 		}
 		fmt.Fprintf(&b, "tasks:\n  t%d:\n    command:\n      - echo f%d\n", i, i)
-		os.WriteFile(filePath(root, i), []byte(b.String()), 0644)
+		os.WriteFile(s.file(root, i), []byte(b.String()), 0644)
 	}
 }
 
@@ -99,7 +119,7 @@ func (s impSpec) reachable() []int {
 		}
 		if i == 0 && s.dirImp >= 0 {
 			for j := 0; j < s.n; j++ {
-				if importDirs[j] == importDirs[s.dirImp] {
+				if s.dirOf(j) == s.dirOf(s.dirImp) {
 					visit(j)
 				}
 			}
@@ -119,9 +139,9 @@ func impCase(col *Collector, s impSpec, tag string) {
 	defer os.RemoveAll(root)
 	s.materialise(root)
 	home := filepath.Join(root, "nohome")
-	main := filePath(root, 0)
+	main := s.file(root, 0)
 	if s.dotRoot {
-		main = root + "/./" + fmt.Sprintf("f%d.yaml", 0)
+		main = root + "/./" + s.baseOf(0)
 	}
 	type result struct {
 		tasks map[string]int
@@ -147,7 +167,7 @@ func impCase(col *Collector, s impSpec, tag string) {
 		done <- r
 	}()
 	cs := Case{Tags: []string{tag, fmt.Sprintf("files=%d", s.n)}, NonTrivial: true}
-	cs.Replay = fmt.Sprintf("%s dirImport=%d dotRoot=%v", s.line(), s.dirImp, s.dotRoot)
+	cs.Replay = fmt.Sprintf("%s dirImport=%d dotRoot=%v names=%d (file i = %q)", s.line(), s.dirImp, s.dotRoot, s.style, filepath.Join(s.dirOf(1%s.n), s.baseOf(1%s.n)))
 	if s.dirImp < 0 && !s.dotRoot {
 		cs.Line = s.line()
 	}
@@ -311,6 +331,10 @@ func runC17(col *Collector, tier string, seed int64) {
 			}
 			specs = append(specs, impSpec{n: n, edges: edges, broken: -1, dirImp: -1})
 			tags = append(tags, "exh<=3")
+			if n == 2 || mask%7 == 3 {
+				specs = append(specs, impSpec{n: n, edges: edges, broken: -1, dirImp: -1, style: 1 + mask%2})
+				tags = append(tags, "exh<=3+names")
+			}
 			// break each position in turn (a sample in the quick tier for n=3)
 			for b := 0; b < n; b++ {
 				for _, kind := range []string{"missing", "unparsable"} {
@@ -349,8 +373,9 @@ func runC17(col *Collector, tier string, seed int64) {
 		case 2:
 			s.dotRoot = true
 		}
+		s.style = []int{0, 0, 1, 2}[k%4]
 		specs = append(specs, s)
-		tags = append(tags, "random")
+		tags = append(tags, fmt.Sprintf("random+names%d", s.style))
 	}
 	parallel(len(specs), 16, func(i int) { impCase(col, specs[i], tags[i]) })
 	for mask := 0; mask < 64; mask++ {
